@@ -87,8 +87,9 @@ pub fn mirror_move<S: Src, const SIDE: u8, const KG: u8, const HOW: u8>(s: &mut 
         vassert!("prefiltered legality is mirror symmetric", verif::is_legal_prefiltered(&b, mv) == verif::is_legal_prefiltered(&b2, mv2));
     }
     vassert!("check status is the same", b.is_check() == b2.is_check());
-    vcover!("a legal move", mv.validate(&b).is_ok());
-    vcover!("a semilegal but illegal move", semi && mv.validate(&b).is_err());
+    vcover!("a legal move (own men)", KG == KG_FOREIGN || mv.validate(&b).is_ok());
+    vcover!("a semilegal but illegal move (own men)", KG == KG_FOREIGN || (semi && mv.validate(&b).is_err()));
+    vcover!("a move that is not semilegal", !semi);
 }
 
 /// classification is the same with the winner swapped (S3: both probes answer the same h, which
